@@ -152,15 +152,18 @@ func allChecksRaw() []*Check {
 				gjf("C13.hist.n4", "VerifC13", 4, "C13.add", "C13.fn", "C13.idem", "C13.md", "C13.nil", "C13.end"),
 				gjf("C13.hist.n3.emptynames", "VerifC13", 13, "C13.add", "C13.fn", "C13.idem", "C13.end"),
 				{Name: "C13.conc.wyield", Pkg: "gtree", Entry: "VerifC13Conc", RealParse: true, RealScan: true, Race: true, RaceConfirm: "VerifC13Stress", Sched: "fifo-wyield", Expect: []string{"C13.conc.same", "C13.conc.noleak", "C13.conc.end"}},
+				{Name: "C13.md.n2", Pkg: "gtree", Entry: "VerifC13Md", N: 2, RealParse: true, Expect: []string{"C13.md.nil", "C13.md.same", "C13.md.noleak", "C13.md.end"}},
 			},
 			Thorough: []Job{
 				{Name: "C13.conc.wyield", Pkg: "gtree", Entry: "VerifC13Conc", RealParse: true, RealScan: true, Race: true, RaceConfirm: "VerifC13Stress", Sched: "fifo-wyield", Expect: []string{"C13.conc.same", "C13.conc.noleak", "C13.conc.end"}},
 				{Name: "C13.conc.lifo-wyield", Pkg: "gtree", Entry: "VerifC13Conc", RealParse: true, RealScan: true, Race: true, RaceConfirm: "VerifC13Stress", Sched: "lifo-wyield", Expect: []string{"C13.conc.same", "C13.conc.noleak", "C13.conc.end"}},
+				{Name: "C13.md.n3", Pkg: "gtree", Entry: "VerifC13Md", N: 3, RealParse: true, Expect: []string{"C13.md.nil", "C13.md.same", "C13.md.noleak", "C13.md.end"}},
+				{Name: "C13.md.n2.lifo", Pkg: "gtree", Entry: "VerifC13Md", N: 2, RealParse: true, Sched: "lifo", Expect: []string{"C13.md.nil", "C13.md.same", "C13.md.noleak", "C13.md.end"}},
 				{Name: "C13.conc.rnd8", Pkg: "gtree", Entry: "VerifC13Conc", RealParse: true, RealScan: true, Race: true, RaceConfirm: "VerifC13Stress", Sched: "rnd8", Expect: []string{"C13.conc.same", "C13.conc.noleak", "C13.conc.end"}},
 				gjf("C13.hist.n5", "VerifC13", 5, "C13.add", "C13.fn", "C13.idem", "C13.md", "C13.nil", "C13.end"),
 				gjf("C13.hist.n4.emptynames", "VerifC13", 14, "C13.add", "C13.fn", "C13.idem", "C13.end"),
 			},
-			Bounds: "sequential histories of N steps (quick 4, thorough 5) plus a final operation on every live tree, over at most two live trees: Add on any node of any tree, creation of the second tree, an unrelated From-Markdown call, a From-Root operation (one kind per history: text, callback walk, iterator walk, JSON) executed twice in a row; names are opaque single path elements, in a second job each name may also be the empty string (NewRoot(\"\")/Add(\"\") are legal). Concurrent use (VerifC13Conc): two goroutines run one library call each at the same time on inputs of their own -- 8 kinds each (From-Markdown text on both simple routes, walk, massive text, dry-run; From-Root text, custom-branch text and walk, each building its tree first), one arbitrary name byte each; real bufio.Scanner / strings.Reader / parser, a model of sync.Pool; write-yield schedules (and LIFO, 8 pseudo-random ones in the thorough tier): each result equals the call's result when run alone, and the happens-before detector finds no pair of unsynchronised conflicting accesses in library code (which does not depend on the schedule explored). Outside: more than two concurrent calls, mkdir/verify as concurrent or history steps, longer histories.",
+			Bounds: "sequential histories of N steps (quick 4, thorough 5) plus a final operation on every live tree, over at most two live trees: Add on any node of any tree, creation of the second tree, an unrelated From-Markdown call, a From-Root operation (one kind per history: text, callback walk, iterator walk, JSON) executed twice in a row; names are opaque single path elements, in a second job each name may also be the empty string (NewRoot(\"\")/Add(\"\") are legal). Concurrent use (VerifC13Conc): two goroutines run one library call each at the same time on inputs of their own -- 8 kinds each (From-Markdown text on both simple routes, walk, massive text, dry-run; From-Root text, custom-branch text and walk, each building its tree first), one arbitrary name byte each; real bufio.Scanner / strings.Reader / parser, a model of sync.Pool; write-yield schedules (and LIFO, 8 pseudo-random ones in the thorough tier): each result equals the call's result when run alone, and the happens-before detector finds no pair of unsynchronised conflicting accesses in library code (which does not depend on the schedule explored). Sequential From-Markdown histories (VerifC13Md): 2 (quick) / 3 (thorough) massive-mode calls one after the other, each on a document in a notation of its own (tabs / one blank / two blanks, list or # roots, bullet symbols): nil and the simple mode's blocks every time (pooled or otherwise kept pipeline state must not show). Outside: more than two concurrent calls, mkdir/verify as concurrent or history steps, longer histories.",
 			Assume: append([]string{parseContract, pathContract, encStub}, commonAssume...),
 		},
 		{
@@ -345,6 +348,7 @@ func allChecksRaw() []*Check {
 				gjf("C11.race.ops.n2", "VerifC10", 2, "C10.noleak", "C10.end"),
 				{Name: "C11.long.n2.ryield", Pkg: "gtree", Entry: "VerifC11Long", N: 2, FSModel: true, Sched: "fifo-ryield", Expect: []string{"C11.long.returns", "C11.long.ctxerr.only", "C11.noleak/long", "C11.stops/reader"}},
 				gjf("C11.fail.n3", "VerifC11Fail", 3, "C11.returns/parse", "C11.returns/validate", "C11.returns/write", "C11.returns/callback", "C11.returns/fs", "C11.returns/reader", "C11.reported/parse", "C11.noleak/parse", "C11.noleak/write", "C11.noleak/fs"),
+				{Name: "C11.fail.n3.fifo-lastsel", Pkg: "gtree", Entry: "VerifC11Fail", N: 3, FSModel: true, Sched: "fifo-lastsel", Expect: []string{"C11.returns/parse", "C11.returns/callback", "C11.reported/callback", "C11.noleak/parse"}},
 				gjf("C11.cancel.n1", "VerifC11Cancel", 1, "C11.cancel.returns", "C11.noleak/cancel"),
 				gjf("C11.cancel.n2", "VerifC11Cancel", 2, "C11.cancel.returns", "C11.ctxerr.only", "C11.ctxerr/precancelled", "C11.cancel.never", "C11.noleak/cancel"),
 				gjf("C11.root.n3", "VerifC11Root", 3, "C11.root.returns", "C11.root.ctxerr.only", "C11.ctxerr/precancelled-root", "C11.noleak/root"),
